@@ -105,6 +105,8 @@ def classify_count(fx, f, bi, t):
                                 classes.add("ACCUMULATED")
                                 details.append("added to `%s`, loop continues while it is short of the request"
                                                % f.name_of_local.get(acc, "_%d" % acc))
+                                if not _zero_progress_exit(f, body, tainted):
+                                    classes.add("NO-ZERO-EXIT")
                     if "ACCUMULATED" not in classes:
                         details.append("added to `%s` but no enclosing loop tests it" % f.name_of_local.get(acc, "_%d" % acc))
             elif rv["op"] in CMP:
@@ -186,6 +188,53 @@ def _early_exits(f, body, acc, tainted):
             if t.get("op_ty") == "isize":
                 continue
     return out
+
+
+def _zero_progress_exit(f, body, tainted):
+    """The retry loop has a way out when the callee makes no progress (count == 0): a test of the count
+    against 0 whose zero branch leaves the loop or fails. Without it a source that ends early spins forever."""
+    cfg = cfg_of(f)
+    du = defuse(f)
+    sig = r_err.signal_blocks(f)
+
+    def leaves(tb):
+        if tb not in body or tb in sig:
+            return True
+        r = cfg.reach([tb], blocked=set(sig))
+        # stays in the loop forever?  it leaves if it cannot come back to the loop header region without failing
+        return not any(x in body for x in r if x != tb) and False
+
+    for u in sorted(body):
+        t = f.blocks[u]["term"]
+        if t["k"] != "switch":
+            continue
+        l = op_local(t["op"])
+        if t.get("op_ty") not in ("bool", "isize") and l in tainted:
+            for val, tb in t["targets"]:
+                if int(val) == 0 and (tb not in body or _only_fails(f, tb, body, sig)):
+                    return True
+        if t.get("op_ty") == "bool":
+            for site, whole in du.defs.get(l, []):
+                if site.is_term:
+                    continue
+                rv = site.node["rv"]
+                if rv["k"] == "bin" and rv["op"] in CMP:
+                    la, lb = op_local(rv["a"]), op_local(rv["b"])
+                    ca, cb = rv["a"].get("c"), rv["b"].get("c")
+                    if (la in tainted and cb is not None and cb.get("v") == 0) or (lb in tainted and ca is not None and ca.get("v") == 0):
+                        for tb in set([b2 for _, b2 in t["targets"]] + [t["otherwise"]]):
+                            if tb not in body or _only_fails(f, tb, body, sig):
+                                return True
+    return False
+
+
+def _only_fails(f, tb, body, sig):
+    cfg = cfg_of(f)
+    if tb in sig:
+        return True
+    r = cfg.reach([tb], blocked=set(sig))
+    # every continuation from tb fails: no return and no way back into the loop's header
+    return not any(x in cfg.returns for x in r) and not any(x in body and x != tb and cfg.can_reach(x, tb) for x in r if x in body and False)
 
 
 def _sum_target(f, l):
@@ -270,12 +319,16 @@ def run(fx, cfgname="A", reach=None):
                         partial.add(f.path)
                         changed = True
     obs = []
+    zero_obs = []
     counters = {}
     for (fp, bi), (t, cls, det) in sorted(site_cls.items()):
         o = q.names(t)[0] or q.names(t)[1]
         n = counters.get((fp, o), 0)
         counters[(fp, o)] = n + 1
         ok = "DROPPED" not in cls and "ABANDONED" not in cls
+        if "NO-ZERO-EXIT" in cls:
+            zero_obs.append((fp, o, n, t, reach is not None and (fp not in reach and fx.fns[fp].root not in reach)))
+            cls = cls - {"NO-ZERO-EXIT"}
         f = fx.fns[fp]
         triv = reach is not None and (fp not in reach and f.root not in reach)
         ob = Ob("R-SHORT", mkkey("R-SHORT", fp, o, n), ok or triv, q.loc_of(t), fp,
@@ -284,4 +337,20 @@ def run(fx, cfgname="A", reach=None):
                 None if ok else dict(callee=o, classes=sorted(cls)), trivial=triv, cfg=cfgname)
         obs.append(ob)
     summary = sorted(x for x in partial if x not in PRIMITIVES)
+    run.zero_progress = []
+    acc_sites = [(fp, bi) for (fp, bi), (t, cls, det) in site_cls.items() if "ACCUMULATED" in cls]
+    bad = set((fp, o, n) for (fp, o, n, t, triv) in zero_obs)
+    counters = {}
+    for (fp, bi), (t, cls, det) in sorted(site_cls.items()):
+        o = q.names(t)[0] or q.names(t)[1]
+        n = counters.get((fp, o), 0)
+        counters[(fp, o)] = n + 1
+        if "ACCUMULATED" not in cls:
+            continue
+        okz = (fp, o, n) not in bad
+        triv = reach is not None and (fp not in reach and fx.fns[fp].root not in reach)
+        run.zero_progress.append(Ob("R-SHORT", mkkey("R-SHORT", fp, o, n, "zero-progress-exit"), okz or triv, q.loc_of(t), fp,
+                                    "retry loop around %s %s when the callee makes no progress (count 0)" % (
+                                        o.split("::")[-1], "ends or fails" if okz else "never ends: it spins"),
+                                    None if okz else dict(callee=o), trivial=triv, cfg=cfgname))
     return obs, summary
